@@ -620,7 +620,21 @@ func (P *Program) genVC(con *Contract) (*FuncResult, *VC) {
 				goal = eq(exitV, entryV)
 			}
 			f.cur, f.curReach = est, er
-			vc.addObl(f, "frame", fmt.Sprintf("frame[%s].only-fresh-objects-written", k), goal, "cell "+k+" is not in `modifies`: it must be unchanged on objects alive at entry", fn.Pos())
+			fo := vc.addObl(f, "frame", fmt.Sprintf("frame[%s].only-fresh-objects-written", k), goal, "cell "+k+" is not in `modifies`: it must be unchanged on objects alive at entry", fn.Pos())
+			if strings.HasPrefix(goal, "(forall ((fr Int))") && fo.vc != nil {
+				// ground witnesses: the same goal at the receiver and at every pointer-like parameter
+				for _, prm := range fn.Params {
+					pv, ok := evAsVal(f.vals[prm])
+					if !ok || pv.s != SInt {
+						continue
+					}
+					if _, isPtr := prm.Type().Underlying().(*types.Pointer); !isPtr {
+						continue
+					}
+					g := fmt.Sprintf("(=> (select %s %s) (= (select %s %s) (select %s %s)))", aliveEntry, pv.t, exitV, pv.t, entryV, pv.t)
+					fo.Witnesses = append(fo.Witnesses, &Obligation{Label: fo.Label + ".at[" + prm.Name() + "]", Kind: "witness", Fn: fo.Fn, Goal: g, Reach: fo.Reach, NAssert: fo.NAssert, Src: fo.Src, vc: vc, Pos: fo.Pos})
+				}
+			}
 		}
 	}
 	// vacuity: requires + every assumed callee postcondition / invariant must not be contradictory at the exit
